@@ -49,7 +49,9 @@ pub fn ignore_filter(entry: &DirEntry, ignore: &Option<Gitignore>) -> bool {
                 return true;
             }
             let path = entry.path();
-            let m = gi.matched(path, path.is_dir());
+            // The entry's own type: a symlink to a directory is not
+            // a directory for a `dir/` pattern.
+            let m = gi.matched(path, entry.file_type().is_dir());
             !m.is_ignore()
         }
     }
